@@ -128,8 +128,9 @@ def bind_target(target: ast.AST, value: Term, env: dict[str, Term]) -> None:
                     bind_target(e, ('item', value, idx), env)
 
 
-def path_env(path: Path, env: dict[str, Term] | None = None, upto: ast.AST | None = None) -> dict[str, Term]:
-    """Environment of local names after the straight-line assignments of the path."""
+def path_env(path: Path, env: dict[str, Term] | None = None, upto: ast.AST | None = None, track_items: bool = False) -> dict[str, Term]:
+    """Environment of local names after the straight-line assignments of the path.
+    With ``track_items`` an item store ``name[i] = v`` rebinds name to ('setitem', old, i, v)."""
     env = dict(env or {})
     for ev in path.events:
         if ev[0] == 'stmt':
@@ -139,7 +140,10 @@ def path_env(path: Path, env: dict[str, Term] | None = None, upto: ast.AST | Non
             if isinstance(st, ast.Assign):
                 v = term(st.value, env)
                 for t in st.targets:
-                    bind_target(t, v, env)
+                    if track_items and isinstance(t, ast.Subscript) and isinstance(t.value, ast.Name):
+                        env[t.value.id] = ('setitem', env.get(t.value.id, ('var', t.value.id)), term(t.slice, env), v)
+                    else:
+                        bind_target(t, v, env)
             elif isinstance(st, ast.AnnAssign) and st.value is not None:
                 bind_target(st.target, term(st.value, env), env)
             elif isinstance(st, ast.AugAssign) and isinstance(st.target, ast.Name):
